@@ -59,7 +59,8 @@ void byte_array::reserve(size_t size)
 
 void byte_array::resize(size_t size)
 {
-    reserve(size);
+    if (!p || size > p->capacity || p->ref > 1)
+        detach(size);
     if (p->size < size)
         ::memset(p->data + p->size, 0, size - p->size);
     p->size = size;
@@ -109,9 +110,9 @@ int byte_array::cmp(const byte_array &other) const
     if (p == other.p) {
         return 0;
     } else if (!p) {
-        return other.p->size > 0 ? 1 : 0;
+        return other.p->size > 0 ? -1 : 0;
     } else if (!other.p) {
-        return p->size > 0 ? -1 : 0;
+        return p->size > 0 ? 1 : 0;
     } else {
         size_t size = p->size;
         if (size > other.p->size)
